@@ -4,7 +4,7 @@ import itertools
 from .. import gen
 from .. import ref as R
 from .. import refresolve as RR
-from .c07 import build, observe
+from .c07 import KINDS, build, observe
 
 LEVEL = "exploration"
 TECHNIQUE = "Resolver.glob results compared with a set-semantics reference (DP wildcard matcher) incl. order/duplicate clauses, strict-vs-relaxed and get agreement; every query replayed inside different call histories to monitor cache transparency"
@@ -20,7 +20,7 @@ ASSUMPTIONS = [
     "the oracle never reads Resolver._match_cache; its length is sampled only to report evictions",
 ]
 GATES = ["mon.C08.relaxed", "mon.C08.strict", "mon.C08.get_agreement", "mon.C08.history", "C08.strict_raised", "C08.strict_returned_with_dead_end_free",
-         "C08.metachar_name", "C08.order_clause", "C08.dup_clause", "C08.cache_evictions_forced", "C08.opposite_ic_first", "C08.starstar", "C08.duplicate_sibling_names", "C08.after_mutation", "C08.option_attributes_reassigned"]
+         "C08.metachar_name", "C08.order_clause", "C08.dup_clause", "C08.cache_evictions_forced", "C08.opposite_ic_first", "C08.starstar", "C08.duplicate_sibling_names", "C08.after_mutation", "C08.option_attributes_reassigned", "C08.falsy_nodes"]
 
 
 def plan(tier, seed, jobs):
@@ -205,7 +205,7 @@ def run(ctx):
                 idx += 1
                 if not ctx.mine(idx):
                     continue
-                kind = ("Node", "AnyNode", "NM", "LM")[idx % 4]
+                kind = KINDS[idx % len(KINDS)]
                 nodes = build(par, list(names), kind)
                 idmap = {id(o): i for i, o in enumerate(nodes)}
                 case = {"kind": kind, "sep": "/", "par": list(par), "names": list(names)}
@@ -227,7 +227,9 @@ def run(ctx):
         ch = gen.children_of(par)
         sep = seps[r % len(seps)]
         ic = bool(r % 2)
-        kind = ("Node", "AnyNode", "NM", "LM")[(r // 2) % 4]
+        kind = KINDS[(r // 2) % len(KINDS)]
+        if kind.startswith("Falsy"):
+            ctx.count("C08.falsy_nodes")
         if r % 5 == 0:
             names = [rng.choice(["a", "b", "a.b", "a+", "ab", "A", "x\ny", "a*", "a?"]) for _ in range(n)]  # duplicates among siblings likely
         else:
